@@ -89,6 +89,8 @@ static std::atomic<bool> g_atomicClock(false);    // lfree: time() = g_vnow (sev
 // time() are only called inside append_unlocked) or before the threads exist (constructor), so pushes are serial.
 struct LfEvent { int t; long a; };                 // t >= 0: fwrite of record #a by thread t;  t == -1: time() returned a
 static std::vector<LfEvent> g_lfTrace;
+static std::atomic<bool> g_lfRecord(false);       // the section trace is recorded (lfree only)
+static std::atomic<bool> g_multiShort(false);     // multi: every AsyncLogging back-end wakes up every 5 ms
 static thread_local int t_lfThread = -1;
 static thread_local long t_lfIndex = -1;
 static std::atomic<long> g_vnow(0);
@@ -185,8 +187,11 @@ extern "C" time_t __wrap_time(time_t* t)
   if (g_atomicClock.load())
   {
     v = g_vnow.load();
-    LfEvent e; e.t = -1; e.a = v;
-    g_lfTrace.push_back(e);
+    if (g_lfRecord.load())
+    {
+      LfEvent e; e.t = -1; e.a = v;
+      g_lfTrace.push_back(e);
+    }
   }
   else if (g_log)
   {
@@ -236,7 +241,7 @@ extern "C" size_t __wrap_fwrite_unlocked(const void* p, size_t sz, size_t n, FIL
     }
     return __real_fwrite_unlocked(p, sz, n, fp);
   }
-  if (g_atomicClock.load() && t_lfThread >= 0)
+  if (g_lfRecord.load() && t_lfThread >= 0)
   {
     LfEvent e; e.t = t_lfThread; e.a = t_lfIndex;
     g_lfTrace.push_back(e);
@@ -292,6 +297,14 @@ extern "C" int __wrap_pthread_mutex_lock(pthread_mutex_t* m)
 
 extern "C" int __wrap_pthread_cond_timedwait(pthread_cond_t* c, pthread_mutex_t* m, const struct timespec* abstime)
 {
+  if (g_multiShort.load() && isBackend())
+  {
+    struct timespec ts;
+    clock_gettime(CLOCK_REALTIME, &ts);
+    ts.tv_nsec += 5 * 1000 * 1000;
+    if (ts.tv_nsec >= 1000000000L) { ts.tv_nsec -= 1000000000L; ts.tv_sec += 1; }
+    return __real_pthread_cond_timedwait(c, m, &ts);
+  }
   if (g_log && c == &g_log->cond_.pcond_ && isBackend())
   {
     if (g_forced.load())
@@ -831,6 +844,7 @@ static void runLogFileFree(const std::vector<string>& hdr)
   t_fwCalls = 0;
   g_lfTrace.clear();
   g_lfTrace.reserve(static_cast<size_t>(T) * n * 2 + 16);
+  g_lfRecord.store(true);
   printf("case %s free\n", hdr[1].c_str());
   {
     muduo::LogFile lf("c16log", roll, true, flush, every);
@@ -878,6 +892,81 @@ static void runLogFileFree(const std::vector<string>& hdr)
   }
   string line;
   while (std::getline(std::cin, line)) { if (vh::splitWs(line).size() && vh::splitWs(line)[0] == "end") break; }
+  g_lfRecord.store(false);
+  g_atomicClock.store(false);
+  g_virtual.store(false);
+  listFiles();
+  printf("end\n");
+  fflush(stdout);
+}
+
+// ------------------------------------------------------------------------------------ several sinks in one process
+//   case <id> multi sinks=<string of L|A> roll=<bytes> flush=<sec> every=<n> now=<sec>
+//     W <k> <n> <lenspec>   sink k (LogFile, not thread safe / AsyncLogging, free-running) gets its next n records
+//     F <k>                 LogFile k: flush()
+//     P <ms>                pause (the AsyncLogging back-ends wake up every 5 ms)
+//     T <sec>               set the virtual clock
+//     X <k>                 destroy sink k (AsyncLogging: stop() in its destructor)
+//   the remaining sinks are destroyed in index order at "end".  Sink k writes c16s<k>.* ; its records carry 'a'+k.
+static void runMulti(const std::vector<string>& hdr)
+{
+  string kinds = hdrGet(hdr, "sinks", "LL");
+  long roll = atol(hdrGet(hdr, "roll", "1000000").c_str());
+  int flush = atoi(hdrGet(hdr, "flush", "3").c_str());
+  int every = atoi(hdrGet(hdr, "every", "1024").c_str());
+  g_virtual.store(true);
+  g_atomicClock.store(true);
+  g_lfRecord.store(false);
+  g_multiShort.store(true);
+  g_vnow.store(atol(hdrGet(hdr, "now", "1000").c_str()));
+  g_wrScript.clear();
+  g_ferr = 0;
+  size_t K = kinds.size();
+  std::vector<std::unique_ptr<muduo::LogFile> > lfs(K);
+  std::vector<std::unique_ptr<muduo::AsyncLogging> > als(K);
+  std::vector<unsigned> seq(K, 0);
+  for (size_t k = 0; k < K; ++k)
+  {
+    char name[32];
+    snprintf(name, sizeof name, "c16s%zu", k);
+    if (kinds[k] == 'A') { als[k].reset(new muduo::AsyncLogging(name, roll, flush)); als[k]->start(); }
+    else lfs[k].reset(new muduo::LogFile(name, roll, false, flush, every));
+  }
+  printf("case %s multi\n", hdr[1].c_str());
+  std::vector<char> buf(8192);
+  string line;
+  while (std::getline(std::cin, line))
+  {
+    std::vector<string> w = vh::splitWs(line);
+    if (w.empty()) continue;
+    if (w[0] == "end") break;
+    t_fwCalls = 0;
+    size_t k = w.size() >= 2 ? static_cast<size_t>(atol(w[1].c_str())) : 0;
+    if (w[0] == "W" && w.size() >= 4 && k < K && (lfs[k] || als[k]))
+    {
+      unsigned n = static_cast<unsigned>(atol(w[2].c_str()));
+      LenSpec spec(w[3]);
+      unsigned from = seq[k];
+      for (unsigned i = 0; i < n; ++i)
+      {
+        int len = spec.at(seq[k]);
+        if (len > 8000) len = 8000;
+        makeRecord(static_cast<int>(k), seq[k], len, &buf[0]);
+        t_fwCalls = 0;
+        if (lfs[k]) lfs[k]->append(&buf[0], len); else als[k]->append(&buf[0], len);
+        ++seq[k];
+      }
+      printf("W %zu from=%u n=%u\n", k, from, n);
+    }
+    else if (w[0] == "F" && k < K && lfs[k]) { lfs[k]->flush(); printf("F %zu\n", k); }
+    else if (w[0] == "P" && w.size() >= 2) { usleep(static_cast<useconds_t>(atol(w[1].c_str())) * 1000); printf("P %s\n", w[1].c_str()); }
+    else if (w[0] == "T" && w.size() >= 2) { g_vnow.store(atol(w[1].c_str())); printf("T %s\n", w[1].c_str()); }
+    else if (w[0] == "X" && k < K && (lfs[k] || als[k])) { lfs[k].reset(); als[k].reset(); printf("X %zu\n", k); }
+    else printf("BADOP %s\n", line.c_str());
+    fflush(stdout);
+  }
+  for (size_t k = 0; k < K; ++k) { lfs[k].reset(); als[k].reset(); }
+  g_multiShort.store(false);
   g_atomicClock.store(false);
   g_virtual.store(false);
   listFiles();
@@ -899,6 +988,7 @@ int main(int argc, char** argv)
     else if (w[2] == "async") runAsync(w, false);
     else if (w[2] == "free") runAsync(w, true);
     else if (w[2] == "lfree") runLogFileFree(w);
+    else if (w[2] == "multi") runMulti(w);
     else { printf("case %s BADKIND\nend\n", w[1].c_str()); }
     fflush(stdout);
   }
